@@ -540,6 +540,13 @@ def generate(rng, tier, boost):
     for _ in range(200 if big else 30):        # failing calls only, then one success
         n = rng.randrange(1, 12)
         cases.append((1905, [[rand_op(rng, 0.0) for _ in range(n)] + [rand_op(rng, 1.0)]]))
+    # amounts sent, through the wrappers
+    av = amount_values(rng, big)
+    for a in av[::1 if big else 3]:
+        cases.append((1905, [[[[6, b'mkHS9ne12qx9pS9VojpwU5xtRd4T7X7ZUt', a], ok_reply(rng, js('00' * 32)), []]]]))
+    for i in range(0, len(av) - 3, 3 if big else 9):
+        pays = [[('addr%d' % k).encode(), av[i + k]] for k in range(3)]
+        cases.append((1905, [[[[7, b'', pays], ok_reply(rng, js('ab' * 32)), []]]]))
     # float overflow before _call: no id is used
     cases.append((1905, [[[[9], ok_reply(rng, js('00' * 32)), []], [[6, b'a', 2 ** 1024], ok_reply(rng, js('00' * 32)), []],
                           [[7, b'', [[b'a', 1], [b'b', 2 ** 1030]]], ok_reply(rng, js('00' * 32)), []],
